@@ -1088,6 +1088,7 @@ static void run_analyzers(int codec, const uint64_t *xs, const uint32_t *x32, si
     }
 }
 
+static long long clipf(long long v);
 /* ---------------------------------------------------------------- scenario */
 static void scenario(int codec, long param, size_t n, const char *shape,
                      long sparam) {
@@ -1111,6 +1112,29 @@ static void scenario(int codec, long param, size_t n, const char *shape,
             fprintf(stderr, "dict build failed\n");
             exit(2);
         }
+    }
+    if (codec == C_ADAPTIVE && (what & 8) && n == 1 && (param == -1 || param == 5)) {
+        /* automatic selection documents the empty array (analysis of count 0 selects TAGGED,
+         * varintAdaptiveMaxSize(0) = 1, the header byte); the sub-encoders of the other forced
+         * encodings exclude it from their domain.  The metadata must describe what was written. */
+        gbuf e = gb_alloc(varintAdaptiveMaxSize(0));
+        varintAdaptiveMeta m;
+        memset(&m, 0x5A, sizeof(m));
+        size_t w = 0;
+        int f = param < 0 ? GUARDED(w = varintAdaptiveEncode(e.p, xs, 0, &m))
+                          : GUARDED(w = varintAdaptiveEncodeWith(e.p, xs, 0, (varintAdaptiveEncodingType)param, &m));
+        ev_begin("EncEmpty");
+        ev_int("sc", (long long)scen_id);
+        ev_str("codec", CODEC[codec]);
+        ev_int("param", param);
+        ev_int("fault", f);
+        ev_int("written", f ? -1 : (long long)w);
+        ev_int("msize", f ? -1 : clipf((long long)m.encodedSize));
+        ev_int("mcount", f ? -1 : clipf((long long)m.originalCount));
+        ev_int("mtype", f ? -1 : clipf((long long)m.encodingType));
+        ev_int("hdr0", f || w == 0 ? -1 : e.p[0]);
+        ev_end();
+        gb_free(&e);
     }
     int exact = 0;
     size_t bound = 0;
